@@ -89,13 +89,6 @@ reading the re-formatted text gives the same value. -/
 
 
 
-theorem bind_ok_inv {α β : Type} {x : Res α} {f : α → Res β} {b : β} (h : (x >>= f) = .ok b) :
-    ∃ a, x = .ok a ∧ f a = .ok b := by
-  cases x with
-  | ok a => exact ⟨a, rfl, h⟩
-  | err => simp at h
-  | panic => simp at h
-
 theorem parseExactLength_ok {t v : Text} {n : Nat} (h : parseExactLength t n = .ok v) : v = t := by
   unfold parseExactLength at h; split at h
   · cases h; rfl
@@ -169,56 +162,6 @@ theorem stable_25 : Stable F25.parse F25.ser := by
   rename_i hne
   simp only [hne, if_false]
   rw [hsw]; rfl
-
-theorem head_tail_of_head {l : Text} {c : Char} (h : l.head? = some c) : l = c :: l.tail := by
-  cases l with
-  | nil => simp at h
-  | cons a as => simp at h; subst h; rfl
-
-/-- 23E -/
-theorem f23E_reproduces (s : Text) (v : F23E) (h : F23E.parse s = .ok v) : F23E.ser v = s := by
-  unfold F23E.parse at h
-  split at h; · cases h
-  rename_i hasc
-  split at h; · cases h
-  rename_i hlen
-  have ha : isAsciiT s = true := by simpa using hasc
-  have hb := blen_ascii s ha
-  have hl : 4 ≤ s.length := by
-    have : ¬ blen s < 4 := by simpa using hlen
-    omega
-  rw [bslice_ascii s 0 4 ha (by omega) hl] at h
-  simp only [Res.bind_ok] at h
-  split at h; · cases h
-  split at h
-  · rename_i hgt
-    have hl5 : 5 ≤ s.length := by
-      have : blen s > 4 := by simpa using hgt
-      omega
-    rw [bfrom_ascii s 4 ha (by omega), bfrom_ascii s 5 ha hl5] at h
-    simp only [Res.bind_ok] at h
-    split at h; · cases h
-    rename_i hhead
-    split at h; · cases h
-    split at h; · cases h
-    obtain ⟨_, _, h3⟩ := bind_ok_inv h
-    cases h3
-    unfold F23E.ser
-    simp only
-    have hh : (s.drop 4).head? = some '/' := by simpa using hhead
-    have e1 := head_tail_of_head hh
-    have e2 : (s.drop 4).tail = s.drop 5 := by rw [List.tail_drop]
-    rw [e2] at e1
-    calc (s.drop 0).take (4 - 0) ++ '/' :: s.drop 5 = s.take 4 ++ s.drop 4 := by rw [← e1]; simp
-      _ = s := List.take_append_drop 4 s
-  · rename_i hle
-    cases h
-    unfold F23E.ser
-    simp only [List.append_nil]
-    have : s.length = 4 := by
-      have : ¬ blen s > 4 := by simpa using hle
-      omega
-    simp [List.take_of_length_le (Nat.le_of_eq this)]
 
 theorem stable_23E : Stable F23E.parse F23E.ser := stable_of_reproduces _ _ f23E_reproduces
 
@@ -382,11 +325,6 @@ theorem f13C_reproduces (s : Text) (v : F13C) (h : F13C.parse s = .ok v) : F13C.
   · cases h
 
 theorem stable_13C : Stable F13C.parse F13C.ser := stable_of_reproduces _ _ f13C_reproduces
-
-theorem guard_ok {b : Bool} {u : Unit} (h : Res.guard b = .ok u) : b = true := by
-  unfold Res.guard at h; split at h
-  · assumption
-  · cases h
 
 theorem all_isDigit_iff (t : Text) : t.all Char.isDigit = t.all isDigitC := by
   induction t with
